@@ -65,7 +65,7 @@ Definition spec_scalar (t : ty) (v : value) : option sc_out :=
   | TF64 => Some (match v with
                   | VInt x => SOk (OF64 (f64_bits_of_Z (Z.of_N x)))
                   | VNeg x => SOk (OF64 (f64_bits_of_Z x))
-                  | VFloat b => SOk (OF64 (f64_canon b))
+                  | VFloat b => SOk (OF64 (Floats.f64_canon b))
                   | _ => SKind float_accepted end)
   | TF32 => Some (match v with
                   | VInt x => SOk (OF32 (f32_bits_of_Z (Z.of_N x)))
